@@ -16,7 +16,7 @@ LEVEL = "exploration"
 RULE = ("random lattice arrays (multiples of 1/8, zeros, negatives) for the ten arithmetic commands, every int64/float64 assignment "
         "for n<=4 inputs (sampled for 5), input orders permuted, weights int/float/mixed; plus single-fault cases (shape, weight count, "
         "empty list); distinct by (command, n, dtype assignment, mask classes, param kinds, fault kind)")
-REQUIRED_COUNTERS = ["narrow_integer_netcdf_cases", "rank0_cases", "fields_read_from_a_reused_file", "program_less_fault_checks", "command_object_input_cases", "ref_postconditions", "order_checks", "fault_checks", "zero_divisor_cells", "zero_weight_sum_cases", "repeated_field_cases", "later_command_checks", "fault_reevaluations", "chained_field_cases"]
+REQUIRED_COUNTERS = ["nonfinite_data_cases", "two_grid_programs", "narrow_integer_netcdf_cases", "rank0_cases", "fields_read_from_a_reused_file", "program_less_fault_checks", "command_object_input_cases", "ref_postconditions", "order_checks", "fault_checks", "zero_divisor_cells", "zero_weight_sum_cases", "repeated_field_cases", "later_command_checks", "fault_reevaluations", "chained_field_cases"]
 ASSUMPTIONS = ["reference models in mpv/ref.py", "int64 overflow and NaN/inf inputs are never generated", "result dtype is not judged"]
 
 COMMUTATIVE = ("Sum", "Multiply", "Minimum", "Maximum", "Mean", "WeightedSum", "WeightedMean")
@@ -311,6 +311,38 @@ def _via_netcdf(ctx, cmd, case_rseed):
         ctx.fail("%s:%s:integer-fields-stored-narrow-in-netcdf" % (cmd, bad[0]), {"cell": bad[1], "got": bad[2], "want": bad[3], "a": a.tolist(), "b": b.tolist(), "read_dtype": str(prog.commands["A"]._result.dtype)})
 
 
+def _extras(ctx, case):
+    """(a) infinite and not-a-number cells that are *data* stay data through the commands that pass values on; (b) one program
+    working on two tables of different lengths: each command is checked against its own fields."""
+    inf = float("inf")
+    a = numpy.ma.array([1.0, inf, -inf, 2.0, 5.0], mask=[0, 0, 0, 0, 1])
+    b = numpy.ma.array([1.0, 1.0, 1.0, 3.0, 1.0])
+    ctx.count("nonfinite_data_cases")
+    for cmd, ins, want in (("Copy", [a], [1.0, inf, -inf, 2.0, None]), ("Sum", [a, b], [2.0, inf, -inf, 5.0, None]), ("Maximum", [a, b], [1.0, inf, 1.0, 3.0, None]),
+                           ("Minimum", [a, b], [1.0, 1.0, -inf, 2.0, None]), ("AMinusB", [a, b], [0.0, inf, -inf, -1.0, None]), ("WeightedSum", [a, b], [3.0, inf, -inf, 7.0, None])):
+        out, _ = arr.run_cmd(cmd, [x.copy() for x in ins], {"Weights": [2, 1]} if cmd == "WeightedSum" else {})
+        if not out.ok:
+            ctx.fail("%s:raises-%s:infinite-data-cells" % (cmd, out.inner() or out.err), {"error": repr(out.exc)[:200]})
+            return
+        got = arr.cells(out.value)
+        if got != want:
+            ctx.fail("%s:%s:infinite-data-cells" % (cmd, "valid-cell-missing" if any(g is None and w is not None for g, w in zip(got, want)) else "value"), {"got": [repr(g) for g in got], "want": [repr(w) for w in want]})
+            return
+    prog = arr.new_program()
+    arr.standin(prog, "S1", numpy.ma.array([1.0, 2.0, 3.0]))
+    arr.standin(prog, "S2", numpy.ma.array([4.0, 5.0, 6.0]))
+    arr.standin(prog, "L1", numpy.ma.array([1.0, 2.0, 3.0, 4.0, 5.0]))
+    arr.standin(prog, "L2", numpy.ma.array([1.0, 1.0, 1.0, 1.0, 1.0]))
+    ctx.count("two_grid_programs")
+    first = arr.invoke(prog, case["cmd"] if case["cmd"] in ("Sum", "Multiply", "Maximum", "Mean") else "Sum", "R1", {"InFieldNames": ["S1", "S2"]})
+    second = arr.invoke(prog, "Sum", "R2", {"InFieldNames": ["L1", "L2"]})
+    third = arr.invoke(prog, "AMinusB", "R3", {"A": "L1", "B": "L2"})
+    for tag, o, size in (("first", first, 3), ("second", second, 5), ("third", third, 5)):
+        if not o.ok or numpy.ma.asarray(o.value).size != size:
+            ctx.fail("program-over-two-tables-of-different-lengths:%s-command-%s" % (tag, "raises-" + (o.inner() or o.err) if not o.ok else "wrong-size"), {"error": repr(o.exc)[:200] if not o.ok else None})
+            return
+
+
 def run_rank0(ctx, case):
     """Fields of rank 0 (one number, possibly missing) through the command's arguments: the value of the reference, or missing;
     whether it comes back as a 0-d array or as a NumPy scalar is not judged."""
@@ -343,6 +375,7 @@ def run_rank0(ctx, case):
 
 def run_case(ctx, case):
     if case["kind"] == "rank0":
+        _extras(ctx, case)
         if case["cmd"] in ("Sum", "Multiply", "AMinusB", "WeightedSum", "Maximum", "Mean"):
             _via_netcdf(ctx, case["cmd"], int(sum(abs(v) * 8 for v in case["values"])) + len(case["kinds"]) * 7919)
         return run_rank0(ctx, case)
@@ -365,6 +398,10 @@ def run_case(ctx, case):
         conv = getattr(numpy, case["weights_as"])
         if all(float(conv(w)) == float(w) for w in params["Weights"]):
             call_params = dict(params, Weights=[conv(w) for w in params["Weights"]])
+    if len(inputs[0].shape) >= 2 and (n + inputs[0].size) % 4 == 2 and isinstance(inputs[0], numpy.ma.MaskedArray):
+        # the first field held in column-major (Fortran) order: the same cells
+        inputs[0] = numpy.ma.array(numpy.asfortranarray(numpy.ma.getdata(inputs[0])), mask=numpy.asfortranarray(numpy.ma.getmaskarray(inputs[0])))
+        ctx.count("fortran_ordered_first_fields")
     out, prog0 = arr.run_cmd(cmd, inputs, call_params, refs=refs, objects="lone")      # a quarter: fields handed over as finished command objects
     if getattr(prog0, "_mpv_object_mode", False):
         ctx.count("command_object_input_cases")
